@@ -13,11 +13,11 @@
 #ifndef DEL
 #define DEL 0
 #endif
-#define VERIF_INPUTS(S,A) A(int,id,3) A(unsigned char,st,3) S(int,mx) S(int,nid) S(unsigned char,nst) S(int,probe) S(unsigned char,owns)
+#define VERIF_INPUTS(S,A) A(int,id,3) A(unsigned char,st,3) S(int,mx) S(int,nid) S(unsigned char,nst) S(int,probe) S(unsigned char,owns) S(unsigned char,kinds) S(unsigned char,start)
 #include "verif.h"
 void w_init(int); void w_prestate(int, const int *, const int *, int); int w_append(int, int, int); int w_append_again(int, int);
 int w_delete_node(int); int w_delete_inst(int); void w_change_state(int, int); void w_clear(void);
-int w_count(void); int w_find(int); int w_at(int); int w_index_of(int); int w_state_at(int); int w_id_of(int); int w_max(void); int w_next(void);
+int w_count(void); int w_find(int); int w_at(int); int w_index_of(int); int w_state_at(int); int w_id_of(int); int w_max(void); int w_next(void); void w_set_kinds(int); int w_find_name(int);
 #define MAXID 1000000
 static void check_queries(const int *slots, const int *ids, const int *states, int n, int probe_) {
     /* slots[k]: pool slot expected at index k */
@@ -87,6 +87,14 @@ void harness(void) {
       if(nid != 0) CHECK(got == nid, "after a clear every explicit id is unused"); else CHECK(got >= 0, "automatic id after clear is fresh");
       ids[0] = got; sts[0] = nst; slots[0] = NPRE;
       check_queries(slots, ids, sts, 1, probe); }
+#elif OP == 8
+    /* look-up by entity name from a start index: the first instance of that type at or after the index, in insertion order */
+    { int r, want = -1, k; ASSUME(start <= 4);
+      w_set_kinds(kinds);
+      for(k = NPRE - 1; k >= 0; k--) if(k >= (int)start && ((kinds >> k) & 1)) want = k;
+      r = w_find_name((int)start);
+      CHECK(r == want, "look-up by entity name returns the first match at or after the start index, nothing if there is none");
+      check_queries(slots, ids, sts, n, probe); }
 #elif OP == 7
     /* history of length 2 from the empty manager: append(new, automatic id) ; append(the same instance again) */
     { int got = w_append(0, 0, nst), r;
